@@ -42,7 +42,7 @@ ASSUMPTIONS = [
     'int (mask_blit(r,g,b), mask_blit_dst, blend_blit x2, custom_blit x2) canvas dimensions <= INT_MAX: beyond that their loop counters overflow',
     'source, mask and destination canvases are distinct objects (self-blits such as img.mask_blit(img, ..) of ImageTest are order-dependent and outside the per-pixel model)',
     'custom_blit callbacks are stateless functions of their arguments and do not throw',
-    'memory-level obligations: canvas width and height <= 8 (quick) / 16 (thorough) for the accessors, < 16 / 32 for the whole-buffer operations (symbolic within the bound); '
+    'memory-level obligations: canvas width and height <= 8 (quick) / 16 (thorough) for the accessors, < 8 / 32 for the whole-buffer operations (set_has_alpha: < 4 / 16), symbolic within the bound; '
     'allocation succeeds (the code does not test the result of malloc)',
     'quick tier leaves the pointer-dereference checks out of the ghost-level loop groups (they touch no pixel memory -- checked syntactically on the extracted text -- and the '
     '~1300 checks of clause evaluations tripled solver time); the thorough tier re-runs those groups with all checks',
@@ -53,8 +53,9 @@ DROPS = ('member functions -> C functions with explicit self; references -> poin
          'std::function callback parameter -> call of the callback model; string_vprintf(fmt, va) -> byte-string parameter; member-initialiser lists -> assignments; '
          'arithmetic sub-expressions with * or / outlined into helper functions (same text); union DataPtrs -> its single pointer (see TRUSTED); malloc -> verif_malloc (non-null)')
 NOT_DECIDED = [
-    'draw_line (Bresenham with double-precision error accumulation): connectedness, pixel count max(|dx|,|dy|)+1, end points, distance from the ideal segment -- floating-point loop, '
-    'no contract attempted (a bounded check on canvases <= 8x8 was not built); only its try/catch structure is like the axis lines',
+    'draw_line (Bresenham with double-precision error accumulation): decided for any end points are only "out_of_range never escapes" and "a changed pixel gets exactly the colour" '
+    '(the slope expression is outlined and unconstrained); NOT decided: connectedness, pixel count max(|dx|,|dy|)+1, end points contained, distance from the ideal segment (floating-point '
+    'path; no bounded check was built).  Observation: when the first end point (after the internal swap) lies outside the canvas the loop stops at once, e.g. draw_line(5,5,-3,5) draws nothing',
     'resize_blit (floating point bilinear filter; it also lets out_of_range escape by design of read_pixel on source coordinates): not under contract',
     'which pixels a DASHED axis line colours and which pixels a line that starts outside the canvas colours: the code stops at the first out-of-canvas pixel (a horizontal line from x1 < 0 '
     'draws nothing); decided here: no exception, nothing off the segment changes, a changed pixel gets exactly the colour, a solid line between in-canvas end points is complete',
@@ -76,7 +77,7 @@ MANIFEST = dict(
           'reverse_horizontal/vertical, set_alpha_from_mask_color, the axis-aligned lines and the text glyph loops never let out_of_range escape and change exactly the pixels the per-pixel model '
           'prescribes (destination rectangle clipped against both canvases gets rule(source, old), everything else untouched); clamp_blit_dimensions equals the intersection model (sound and '
           'maximal); clipping invariance, mirror twice, invert twice, widen-then-narrow are lemmas over the contracts; copies are deep, moves empty the source.  The pixel accessors and the '
-          'whole-buffer operations (set_channel_width, set_has_alpha, copy) are proved against memory for bounded canvas dimensions (<= 8/16 resp. < 16/32), reported as bounded.  Found and '
+          'whole-buffer operations (set_channel_width, set_has_alpha, copy) are proved against memory for bounded canvas dimensions (<= 8/16 resp. < 8/32), reported as bounded.  Found and '
           'fixed: mask_blit(.., mask) let out_of_range escape when sx or sy > 0 (mask checked against w,h only).'),
     note=('Trusted: cbmc/goto-instrument/solvers, the extractor, the specification macros, the canonical accessor/helper models (stubs/C07_pixel_model.h; model |= contract is proved, the link to '
           'memory is the shared clause macros).  Blend arithmetic is pinned to the commit (regression-strength); draw_line, resize_blit, dashed/out-of-canvas line pixels and the text pixel model are '
@@ -551,9 +552,9 @@ def canvas_unit(ctx, src):
                    % (i_var, A2, i_var, i_var, i_lim, o_done, i_done, SWAPPED, ORIG, i_lim, i_var)}
     u.raw('#ifdef C07_GHOST2')
     u.function(src, CC, sig('void Image::reverse_horizontal()'), new_header='void Image_reverse_horizontal(Image* self)', rules=std_rules(), nloops=2,
-               loops=swap_loops('y', 'self->height', 'x', 'self->width / 2', '(g_dy < y)', '(g_dy == y && (g_dx < x || g_ex < x))'), body_prefix=SAVE2)
+               loops=swap_loops('y', 'self->height', 'x', 'self->width / 2', '(D_IN && g_dy < y)', '(D_IN && g_dy == y && (g_dx < x || g_ex < x))'), body_prefix=SAVE2)
     u.function(src, CC, sig('void Image::reverse_vertical()'), new_header='void Image_reverse_vertical(Image* self)', rules=std_rules(), nloops=2,
-               loops=swap_loops('y', 'self->height / 2', 'x', 'self->width', '(g_dy < y || g_ey < y)', '((g_dy == y || g_ey == y) && g_dx < x)'), body_prefix=SAVE2)
+               loops=swap_loops('y', 'self->height / 2', 'x', 'self->width', '(D_IN && (g_dy < y || g_ey < y))', '(D_IN && (g_dy == y || g_ey == y) && g_dx < x)'), body_prefix=SAVE2)
     u.raw('#endif')
     # ---- axis-aligned (dashed) lines: one loop; the division that selects dashes is outlined (its value only selects a branch)
     COL = '(g_dr == WCH(r, self) && g_dg == WCH(g, self) && g_db == WCH(b, self) && g_da == WA(a, self))'
@@ -571,6 +572,26 @@ def canvas_unit(ctx, src):
         emit_with_helpers(u, o, txt)
         u.function(src, CC, sig('void Image::%s(%s, ssize_t dash_length, uint32_t c)' % (nm, args)),
                    new_header='void Image_%s_c(Image* self, %s, ssize_t dash_length, uint32_t c)' % (nm, args), rules=std_rules())
+    # ---- draw_line: frame only (the Bresenham error term is double-precision; its slope expression is outlined and unconstrained in the loop proof)
+    slope = []
+
+    def slope_rule(body, where=''):
+        def one(mo):
+            slope.append('double x_line_slope(ssize_t dy, ssize_t dx)\n{\n  return %s;\n}\n' % mo.group(1).strip())
+            return 'double derror = x_line_slope(dy, dx);'
+        return re.sub(r'double derror = ([^;]*);', one, body)
+    LINE_INV = ('__CPROVER_assigns(x, y, error, verif_exc, %s)\n' % DG +
+                '__CPROVER_loop_invariant(x0 <= x && x <= x1 + 1 && verif_exc == 0 && -2 * C07_CMAX < y && y < 2 * C07_CMAX && y - y0 <= x - x0 && y0 - y <= x - x0)\n'
+                '__CPROVER_loop_invariant(%s || %s)\n' % (D_IS_O, COL) +
+                '__CPROVER_decreases(x1 - x)')
+    txt = u.function(src, CC, sig('void Image::draw_line(ssize_t x0, ssize_t y0, ssize_t x1, ssize_t y1, uint64_t r, uint64_t g, uint64_t b, uint64_t a)'),
+                     new_header='void Image_draw_line(Image* self, ssize_t x0, ssize_t y0, ssize_t x1, ssize_t y1, uint64_t r, uint64_t g, uint64_t b, uint64_t a)',
+                     rules=[Rule(r'(?<![>.\w])(width|height)\b', r'self->\1', regex=True, count='+'), Rule(r'\babs\(', 'labs(', regex=True, count='+')] +
+                     std_rules(extra=[Fn(slope_rule)]), nloops=1, loops={1: LINE_INV}, body_prefix=SAVE_O, emit=False)
+    u.parts.append('#ifndef C07_ARITH_MODEL\n' + ''.join(slope) + '#endif\n')
+    u.parts.append(txt)
+    u.function(src, CC, sig('void Image::draw_line(ssize_t x0, ssize_t y0, ssize_t x1, ssize_t y1, uint32_t c)'),
+               new_header='void Image_draw_line_c(Image* self, ssize_t x0, ssize_t y0, ssize_t x1, ssize_t y1, uint32_t c)', rules=std_rules())
     # ---- draw_text_v: the formatted text is a parameter (string_vprintf is libc); glyph table from ImageTextFont.hh
     font = u.snippet(src, FONT, r'static uint8_t font\[96\]\[35\] = \{.*?\n\};')
     u.raw(font)
@@ -618,6 +639,7 @@ def plan(ctx):
             # the proof itself; quick tier leaves them out (the functions touch no pixel memory -- checked in canvas_unit), thorough re-runs with them
             g.checks = NO_PTR
             g.engines, g.first, g.stage1, g.timeout = ['cadical', 'minisat'], 'cadical', 120, 400
+            g.fallback_unwind = 18       # only invariant/frame obligations fail: look for a concrete postcondition failure on canvases <= 16x16
         gs.append(g)
         return g
     # ---- memory level (bounded in canvas dimension): one instantiation per channel width and alpha mode
@@ -629,6 +651,7 @@ def plan(ctx):
                                     function='Image::%s(x, y, r, g, b, a)' % fn, enforce='Image_' + fn, kind='bounded', tier=tier,
                                     bound='canvas width and height <= %d (symbolic within the bound); coordinates, channel values unbounded' % dimb,
                                     defines=['CW=%d' % cw, 'HA=%d' % ha, 'C07_DIMB=%d' % dimb], object_bits=10, timeout=300 if dimb == 8 else 900,
+                                    engines=['minisat', 'cadical'], first='minisat', stage1=150 if dimb == 8 else 450,   # minisat: 25 s, every other back end > 150 s
                                     replay=RP('mem_' + fn)))
     G('read_pixel(uint32)', 'read_pixel_c', 'Image::read_pixel(x, y)', 'Image_read_pixel_c')
     G('write_pixel(uint32)', 'write_pixel_c', 'Image::write_pixel(x, y, color)', 'Image_write_pixel_c')
@@ -676,13 +699,14 @@ def plan(ctx):
     ctx.functions_under_contract += ur.functions
     HR = 'harness/C07/reshape.c'
 
-    def R(name, entry, function, enforce, defines, replace=(), loops=False, kind=None, tiers=((4, 'quick'), (5, 'thorough')), **kw):
+    def R(name, entry, function, enforce, defines, replace=(), loops=False, kind=None, tiers=((3, 'quick'), (5, 'thorough')), **kw):
         """tiers: (RS_DIMBITS, tier) instances of a dimension-bounded group; lemmas and the loop-free moves have no bound"""
         unbounded = kind == 'lemma' or entry.startswith('h_move')
         for bits, tier in (((4, 'quick'),) if unbounded else tiers):
             g = Group(name='Image.' + name + ('' if unbounded else '[dim<%d]' % (1 << bits)), harness=HR, entry=entry, function=function, enforce=enforce,
                       replace=list(replace), loops=loops, defines=list(defines) + ['RS_DIMBITS=%d' % bits], tier=tier,
                       kind=kind or ('loop-free' if unbounded else 'bounded'), object_bits=10, replay=RP(entry[2:]), timeout=300 if tier == 'quick' else 900,
+                      **({} if unbounded or 'first' in kw else dict(engines=['minisat', 'cadical'], first='minisat', stage1=150)),
                       bound='' if unbounded else 'canvas width and height < %d (symbolic within the bound); every sample value' % (1 << bits), **kw)
             gs.append(g)
     for ow in (8, 16, 32, 64):
@@ -691,15 +715,15 @@ def plan(ctx):
                 continue
             for ha in (0, 1):
                 R('set_channel_width[%d->%d,alpha=%d]' % (ow, nw, ha), 'h_set_channel_width', 'Image::set_channel_width', 'Image_set_channel_width',
-                  ['OW=%d' % ow, 'NW=%d' % nw, 'HA=%d' % ha], loops=True, tiers=((4, 'quick'), (5, 'thorough')) if ha == 1 else ((4, 'thorough'),))
+                  ['OW=%d' % ow, 'NW=%d' % nw, 'HA=%d' % ha], loops=True, tiers=((3, 'quick'), (5, 'thorough')) if ha == 1 else ((4, 'thorough'),))
             if nw > ow:
                 R('set_channel_width.widen_narrow[%d->%d->%d]' % (ow, nw, ow), 'l_widen_narrow', 'Image::set_channel_width (widen then narrow == identity, per sample)',
                   None, ['OW=%d' % ow, 'NW=%d' % nw, 'HA=1'], kind='lemma')
     for cw in (8, 16, 32, 64):
         for ha in (0, 1):
-            # width*height is re-evaluated in the loop condition: the slowest of the bounded groups (cvc5 answers first)
+            # width*height is re-evaluated in the loop condition: the slowest of the bounded groups (quick tier: dimensions < 4)
             R('set_has_alpha[cw=%d,%s]' % (cw, 'drop' if ha else 'add'), 'h_set_has_alpha', 'Image::set_has_alpha', 'Image_set_has_alpha',
-              ['CWA=%d' % cw, 'HA=%d' % ha], loops=True, tiers=((3, 'quick'), (4, 'thorough')) if cw == 8 else ((4, 'thorough'),), first='cvc5', stage1=150)
+              ['CWA=%d' % cw, 'HA=%d' % ha], loops=True, tiers=((2, 'quick'), (4, 'thorough')) if cw == 8 else ((4, 'thorough'),), first='minisat', stage1=150)
     R('copy_constructor', 'h_copy_ctor', 'Image::Image(const Image&)', 'Image_copy_ctor', [], replace=['verif_memcpy'])
     for on in (0, 1):
         R('copy_assignment[%s]' % ('empty target' if on else 'target with a buffer'), 'h_copy_assign', 'Image::operator=(const Image&)', 'Image_copy_assign',
@@ -726,6 +750,8 @@ def plan(ctx):
         G('draw_%s_line' % ax, 'draw_%s_line' % ax, 'Image::draw_%s_line' % ax, 'Image_draw_%s_line' % ax, loops=True)
         G('draw_%s_line(uint32)' % ax, 'draw_%s_line_c' % ax, 'Image::draw_%s_line(.., color)' % ax, 'Image_draw_%s_line_c' % ax, replace=['Image_draw_%s_line' % ax])
         G('draw_%s_line.dash_selector' % ax, 'x_%s_div1' % ax[0], 'Image::draw_%s_line (outlined expression x / dash_length)' % ax, 'x_%s_div1' % ax[0], model=False)
+    G('draw_line', 'draw_line', 'Image::draw_line (no exception, colour of changed pixels; the path itself is not decided)', 'Image_draw_line', loops=True)
+    G('draw_line(uint32)', 'draw_line_c', 'Image::draw_line(.., color)', 'Image_draw_line_c', replace=['Image_draw_line'])
     G('draw_text_v', 'draw_text_v', 'Image::draw_text_v', 'Image_draw_text_v', replace=['Image_fill_rect'], loops=True)
     L('fill_rect.clipping_invariance', 'fill_rect_clip', 'Image::fill_rect (small canvas == crop of larger canvas)', 'L_fill_rect_clip', ['Image_fill_rect'])
     L('blit.clipping_invariance', 'blit_clip', 'Image::blit (small destination == crop of larger destination)', 'L_blit_clip', ['Image_blit'])
@@ -737,4 +763,12 @@ def plan(ctx):
                   enforce='L_%s_rule' % nm, replace=[callee], kind='lemma', defines=dfs + ['C07_ARITH_MODEL=1'], object_bits=10,
                   engines=['cvc5', 'z3'], first='cvc5', stage1=60, timeout=300, replay=RP(nm))
         gs.append(g)
+    # thorough: the ghost-level loop groups once more with every standard check (pointer dereference checks included)
+    import copy
+    for g in list(gs):
+        if g.checks is NO_PTR:
+            g2 = copy.deepcopy(g)
+            g2.name += '.all-checks'
+            g2.checks, g2.tier, g2.timeout, g2.stage1 = None, 'thorough', 1200, 600
+            gs.append(g2)
     return gs
